@@ -612,8 +612,10 @@ func r2(r *rand.Rand, g int) *rand.Rand {
 // AvailableStreams() == capacity - (requests the node received on it and has not answered).
 func echoConservation(sess *gocql.Session, cl *fakenode.Cluster) []string {
 	var out []string
+	inFlight := false
 	check := func() []string {
 		var bad []string
+		inFlight = false
 		byAddr := map[string][]*fakenode.ServerConn{}
 		for _, sc := range cl.AllConns() {
 			if !sc.Driver.Closed() && !sc.C.Closed() {
@@ -639,6 +641,11 @@ func echoConservation(sess *gocql.Session, cl *fakenode.Cluster) []string {
 				if n != 1 {
 					continue // several open data connections: cannot pair them from outside
 				}
+				if match.Driver.Pending() > 0 || match.C.Pending() > 0 {
+					// bytes still in flight in either direction: not a quiescent point
+					inFlight = true
+					continue
+				}
 				avail := conn.AvailableStreams()
 				outst := match.Outstanding()
 				if avail != num-1-outst {
@@ -652,16 +659,18 @@ func echoConservation(sess *gocql.Session, cl *fakenode.Cluster) []string {
 		return bad
 	}
 	// a mismatch counts only if it is stable (in-flight heartbeats and late deliveries settle)
+	// The picture must be unchanged over 25 polls (>= 500 ms) with both pipes empty; the driver may need
+	// a while to work through a backlog of answers (near-full connections, a loaded machine).
 	var last []string
 	stable := 0
-	for i := 0; i < 40; i++ {
+	for i := 0; i < 1500; i++ {
 		cur := check()
-		if len(cur) == 0 {
+		if len(cur) == 0 && !inFlight {
 			return nil
 		}
-		if strings.Join(cur, ";") == strings.Join(last, ";") {
+		if !inFlight && strings.Join(cur, ";") == strings.Join(last, ";") {
 			stable++
-			if stable >= 5 {
+			if stable >= 25 {
 				out = cur
 				break
 			}
